@@ -11,7 +11,7 @@ import (
 func init() { register("C15", checkC15) }
 
 func checkC15(r *Run) {
-	r.Explain = "Decides the structural clauses of TriggerLevelWriter: A15a buf/triggered and the wrapped writer are touched only with w.mu held (all public methods lock; trigger() is only called with the lock held); TLW-PATH a path table of WriteLevel: trigger() is called exactly under !triggered && l >= TriggerLevel and before any write of the triggering line; a line is held back exactly under !triggered && l <= ConditionalLevel, as one level byte byte(l) followed by p, reporting len(p), nil and writing nothing to the destination; every other path hands (l, p) to the destination exactly once; TLW-FRAME trigger() latches triggered (the only stores anywhere are the constant true), walks the buffer front to back splitting at '\\n', and re-emits each line as (Level(line[0]), line[1:]) — the inverse of the byte(l)+p framing (int8<->uint8 is a bit-preserving round trip, so negative levels and levels above 127 survive); buf.Bytes() is read only by trigger(), so held lines cannot reach the destination unless the trigger fires; every return of the explicit Trigger() leaves the latch set (also when nothing is held); A13 the pooled hold-back buffer is owned by one writer at a time (no use after it was put back, no double put, the field is cleared when the buffer returns to the pool). A13d every *bytes.Buffer put into a module pool is empty on every path to the Put (WriteLevel appends to what Get returns without clearing it, so a writer sharing the pool that puts back a used buffer injects its bytes into the held lines). Every return of Close leaves the hold-back buffer detached; A15a no-relock: no method calls, with the mutex held, a method of the same writer that acquires it. FILTER (shared with C14): a FilteredLevelWriter in front forwards through WriteLevel with the level (through Write the embedded destination is reached past hold and trigger)."
+	r.Explain = "Decides the structural clauses of TriggerLevelWriter: A15a buf/triggered and the wrapped writer are touched only with w.mu held (all public methods lock; trigger() is only called with the lock held); TLW-PATH a path table of WriteLevel: trigger() is called exactly under !triggered && l >= TriggerLevel and before any write of the triggering line; a line is held back exactly under !triggered && l <= ConditionalLevel, as one level byte byte(l) followed by p, reporting len(p), nil and writing nothing to the destination; every other path hands (l, p) to the destination exactly once; TLW-FRAME trigger() latches triggered (the only stores anywhere are the constant true), walks the buffer front to back splitting at '\\n', and re-emits each line as (Level(line[0]), line[1:]) — the inverse of the byte(l)+p framing (int8<->uint8 is a bit-preserving round trip, so negative levels and levels above 127 survive); buf.Bytes() is read only by trigger(), so held lines cannot reach the destination unless the trigger fires; every return of the explicit Trigger() leaves the latch set (also when nothing is held); A13 the pooled hold-back buffer is owned by one writer at a time (no use after it was put back, no double put, the field is cleared when the buffer returns to the pool). A13d every *bytes.Buffer put into a module pool is empty on every path to the Put (WriteLevel appends to what Get returns without clearing it, so a writer sharing the pool that puts back a used buffer injects its bytes into the held lines). Every return of Close leaves the hold-back buffer detached; A15a no-relock: no method calls, with the mutex held, a method of the same writer that acquires it. FILTER (shared with C14): a FilteredLevelWriter in front forwards through WriteLevel with the level (through Write the embedded destination is reached past hold and trigger). WCOUNT (shared with C14): module destinations report len(p) for a line they accepted, so a replayed held line is not turned into a short write that aborts the flush."
 	r.NotDec = "Behaviour over arbitrary histories as such (the re-splitting relies on the stated input restriction: newline-terminated lines without interior newlines, level byte != 10); error returns of the destination during a flush."
 	r.Assume = []string{"lines are newline-terminated and contain no interior newline; level byte != '\\n' (property's input restriction)"}
 	p := r.Use("J")
@@ -34,6 +34,9 @@ func checkC15(r *Run) {
 	// a FilteredLevelWriter in front of the trigger writer must forward through WriteLevel with the
 	// level: through Write the embedded destination is reached directly, past hold and trigger
 	ruleFilteredWriter(r, p)
+	// a destination of this module that reports a count other than len(p) for a line it accepted
+	// turns a replayed held line into a short write and aborts the flush (WCOUNT, shared with C14)
+	ruleWriterCount(r, p, "WCOUNT", []string{"", "journald", "diode"}, map[string]string{"multiLevelWriter": "the fan-out itself (FANOUT in C14 decides its count and error)"})
 	r.Floor("A13d", 2)
 	r.Floor("A13a", 2)
 	r.Floor("A15a", 10)
